@@ -404,6 +404,61 @@ def f_globals(a, xs):
 def f_super(a, xs):
     c = Child()
     return (c.who(a), c.val())
+def f_callforms(a, xs):
+    # every syntactic form of passing arguments to an overloaded builtin, incl. the ones Python rejects
+    r = []
+    kw = {'reverse': True}
+    pos = (xs,)
+    for i in range(2):
+        if i >= 0:
+            r.append(sorted(xs, reverse=False))
+            r.append(sorted(*pos, **kw))
+            r.append(sorted(xs, **kw))
+            r.append(list(enumerate(xs, **{'start': a})))
+            r.append(int('101', base=2))
+            r.append(int('11', **{'base': a + 2}))
+            r.append(list(zip(xs, xs, strict=True)))
+            r.append(abs(*[-a]))
+            try:
+                r.append(sorted(xs, reverse=False, **kw))
+            except TypeError:
+                r.append('duplicate keyword')
+            try:
+                r.append(int('5', **{'base': 10}, **{'base': 2}))
+            except TypeError:
+                r.append('duplicate keyword 2')
+            try:
+                r.append(list(enumerate(xs, start=1, **{'start': 2})))
+            except TypeError:
+                r.append('duplicate keyword 3')
+            try:
+                r.append(len(*pos, *pos))
+            except TypeError:
+                r.append('arity')
+    return r
+def f_del_locals(a, xs):
+    # a name bound before the loop, rebound and deleted inside its body
+    t = 5
+    r = [t]
+    for i in xs:
+        t = i + 1
+        u = t
+        del t
+        r.append('t' in locals())
+        r.append(sorted(k for k in locals() if k in ('t', 'u', 'i', 'a')))
+        try:
+            r.append(eval('t'))
+        except NameError:
+            r.append('NameError')
+        if u > 1:
+            w = u
+            del w
+            r.append('w' in locals())
+            try:
+                r.append(eval('w + 1'))
+            except NameError:
+                r.append('NameError w')
+    return r
 def f_eval_explicit(a, xs):
     q = 100
     r = [eval('q', {'q': 5})]
@@ -414,7 +469,8 @@ def f_eval_explicit(a, xs):
     return r
 '''
 
-FRAME_FUNCS = ['f_eval0', 'f_eval', 'f_locals', 'f_globals', 'f_super', 'f_super_explicit', 'f_super', 'f_eval_explicit']
+FRAME_FUNCS = ['f_eval0', 'f_eval', 'f_locals', 'f_globals', 'f_super', 'f_super_explicit', 'f_super', 'f_eval_explicit',
+               'f_callforms', 'f_del_locals']
 FRAME_INPUTS = ['(1, [1, 2])', '(3, [0, 5, -1])', '(0, [])', '(2, [4])']
 
 
